@@ -19,6 +19,7 @@
 
 /* INTERNAL */
 TickitWindow* tickit_window_new_root2(Tickit *t, TickitTerm *term);
+void tickit_window_forget_tickit(TickitWindow *win);
 
 struct TickitWatch {
   TickitWatch *next;
@@ -370,8 +371,11 @@ static void tickit_destroy(Tickit *t)
   if(t->done_setup)
     teardownterm(t);
 
-  if(t->rootwin)
+  if(t->rootwin) {
+    /* the application may hold a reference of its own on the root window */
+    tickit_window_forget_tickit(t->rootwin);
     tickit_window_unref(t->rootwin);
+  }
   if(t->term) {
     tickit_term_teardown(t->term);
     tickit_term_unref(t->term);
